@@ -366,6 +366,24 @@ Proof.
       * exact IH.
 Qed.
 
+Lemma aset_keys t v l :
+  map fst (aset t v l) = if existsb (N.eqb t) (map fst l) then map fst l else map fst l ++ [t].
+Proof.
+  induction l as [|[a w] r IH]; cbn; [reflexivity|].
+  destruct (N.eqb_spec t a) as [->|Hne]; cbn; [reflexivity|].
+  rewrite IH. destruct (existsb (N.eqb t) (map fst r)); reflexivity.
+Qed.
+
+Lemma aset_nodup t v l : NoDup (map fst l) -> NoDup (map fst (aset t v l)).
+Proof.
+  intros H. rewrite aset_keys. destruct (existsb (N.eqb t) (map fst l)) eqn:E; [exact H|].
+  apply NoDup_rev in H. rewrite <- (rev_involutive (_ ++ _)). apply NoDup_rev.
+  rewrite rev_app_distr. cbn. constructor; [|exact H]. intros Hin. apply in_rev in Hin.
+  assert (existsb (N.eqb t) (map fst l) = true).
+  { apply existsb_exists. exists t. split; [exact Hin|apply N.eqb_refl]. }
+  congruence.
+Qed.
+
 Section Invariants.
   Variable ps : list prod.
   Variable e : N.
@@ -406,11 +424,16 @@ Section Invariants.
   (* every item with the dot behind a symbol: that symbol is not STOP *)
   Definition pred_ok (P : list (N * nat)) : Prop :=
     forall p d, In (p, S d) P -> exists X, sym_at p d = Some X /\ sym_eqb X (T stop) = false.
-  Definition pds_wf (P : list (N * nat)) : Prop := NoDup P /\ pred_ok P.
+  Definition valid_pds (P : list (N * nat)) : Prop :=
+    forall p d, In (p, d) P -> (N.to_nat p < length ps)%nat.
+  Definition pds_wf (P : list (N * nat)) : Prop := NoDup P /\ pred_ok P /\ valid_pds P.
+  (* per-state well-formedness: the items, and the ACTION dict has no duplicate key *)
+  Definition state_wf (st : mstate) : Prop :=
+    pds_wf (pds (ms_items st)) /\ NoDup (map fst (ms_acts st)).
 
   Record sinv (cur : nat) (all : list mstate) : Prop := mkSinv {
     si_state0 : exists st0, nth_error all 0 = Some st0 /\ In (0, O) (pds (ms_items st0));
-    si_nodup : forall k st, nth_error all k = Some st -> pds_wf (pds (ms_items st));
+    si_nodup : forall k st, nth_error all k = Some st -> state_wf st;
     si_done : forall k st, (k < cur)%nat -> nth_error all k = Some st -> state_done all st
   }.
 
@@ -509,7 +532,7 @@ Section Invariants.
   Qed.
 
   Definition nodup_all (all : list mstate) : Prop :=
-    forall k st, nth_error all k = Some st -> pds_wf (pds (ms_items st)).
+    forall k st, nth_error all k = Some st -> state_wf st.
 
   (* the tables of state cur agree outside the key of x *)
   Definition tabs_agree (x : sym) (st st' : mstate) : Prop :=
@@ -585,7 +608,7 @@ Section Invariants.
       + rewrite nth_error_app1 in Hs by exact Hlt. apply (Hnd k s Hs).
       + assert (Hk' : (k < length (all ++ [new_state x kits]))%nat) by (apply nth_error_Some; congruence).
         rewrite app_length in Hk'. cbn [length] in Hk'. assert (k = length all) by lia. subst k.
-        rewrite nth_error_app_new in Hs. inversion Hs; subst s. exact Hk.
+        rewrite nth_error_app_new in Hs. inversion Hs; subst s. split; [exact Hk|constructor].
     - intros k s Hs. exists s. split; [|auto].
       rewrite nth_error_app1; [exact Hs|]. apply nth_error_Some. congruence.
   Qed.
@@ -597,7 +620,7 @@ Section Invariants.
   Proof.
     intros Hnd Hk He Hker. split; [|split; [exact Hnd|apply same_shape_refl]].
     exists old. split; [exact Hk|]. intros y Hy.
-    eapply state_eqb_incl; [exact He|apply (proj1 (Hnd k old Hk))|exact Hker|exact Hy].
+    eapply state_eqb_incl; [exact He|apply (proj1 (proj1 (Hnd k old Hk)))|exact Hker|exact Hy].
   Qed.
 
   Lemma mid_merged all kits k old its' :
@@ -609,9 +632,9 @@ Section Invariants.
     intros Hnd Hk He Hker Hm. pose proof (merge_states_pds ps e _ _ _ Hm) as Hp. split; [|split].
     - eexists. split; [rewrite nth_error_set_items, Nat.eqb_refl, Hk; reflexivity|].
       cbn [ms_items]. rewrite Hp. intros y Hy.
-      eapply state_eqb_incl; [exact He|apply (proj1 (Hnd k old Hk))|exact Hker|exact Hy].
+      eapply state_eqb_incl; [exact He|apply (proj1 (proj1 (Hnd k old Hk)))|exact Hker|exact Hy].
     - intros j s Hs. rewrite nth_error_set_items in Hs. destruct (Nat.eqb_spec j k) as [->|Hne].
-      + rewrite Hk in Hs. inversion Hs; subst s. cbn [ms_items].
+      + rewrite Hk in Hs. inversion Hs; subst s. unfold state_wf. cbn [ms_items ms_acts].
         rewrite Hp. apply (Hnd k old Hk).
       + apply (Hnd j s Hs).
     - intros j s Hs. rewrite nth_error_set_items. destruct (Nat.eqb_spec j k) as [->|Hne].
@@ -658,7 +681,8 @@ Section Invariants.
       + exists s'. split; [exact Hk'|]. split; [exact Hs'|]. split; [rewrite Hp'; apply incl_refl|auto].
     - intros k s Hk. rewrite Hn in Hk. destruct (Nat.eqb k cur).
       + destruct (nth_error all1 k) as [s0|] eqn:E; [|discriminate]. inversion Hk; subst s.
-        rewrite rec_fun_items. apply (Hnd1 k s0 E).
+        destruct (Hnd1 k s0 E) as [Hw Ha]. split; [rewrite rec_fun_items; exact Hw|].
+        destruct x; cbn [rec_fun ms_acts]; [apply aset_nodup|]; exact Ha.
       + apply (Hnd1 k s Hk).
   Qed.
 
@@ -682,19 +706,25 @@ Section Invariants.
       + intros i p d _ _. unfold edge. rewrite N.eqb_refl. cbn [f ms_acts]. rewrite assoc_aset, N.eqb_refl.
         reflexivity.
       + intros k s Hk. rewrite nth_error_map_nth in Hk. destruct (Nat.eqb k cur).
-        * destruct (nth_error all k) as [s0|] eqn:E; [|discriminate]. inversion Hk; subst s. cbn.
-          apply (Hnd k s0 E).
+        * destruct (nth_error all k) as [s0|] eqn:E; [|discriminate]. inversion Hk; subst s.
+          destruct (Hnd k s0 E) as [Hw Ha]. split; [exact Hw|]. cbn [f ms_acts]. apply aset_nodup. exact Ha.
         * apply (Hnd k s Hk).
     - destruct (inc_group ps e (ms_items st) idxs) as [kits|] eqn:Einc; [|discriminate].
-      destruct (inc_group_props ps e (ms_items st) idxs kits Einc (proj1 (Hnd cur st Hcur)) Hidx)
+      destruct (inc_group_props ps e (ms_items st) idxs kits Einc (proj1 (proj1 (Hnd cur st Hcur))) Hidx)
         as (Hknd & Hkk & Hkin & Hkfrom).
       assert (Hkwf : pds_wf (pds kits)).
-      { split; [exact Hknd|]. intros p d Hin. apply pds_In in Hin. destruct Hin as (it' & Hit' & Hpd').
-        destruct (Hkfrom it' Hit') as (i & it & Hi & Hit & Hpd). rewrite Hpd in Hpd'.
-        inversion Hpd'; subst p d. destruct (Hg i Hi) as (p0 & d0 & Hn0 & Hs0).
-        apply nth_error_pds in Hn0. destruct Hn0 as (it0 & Hit0 & Hpd0). rewrite Hit in Hit0.
-        inversion Hit0; subst it0. unfold pd in Hpd0. inversion Hpd0; subst p0 d0.
-        exists x. split; [exact Hs0|exact Estop]. }
+      { split; [exact Hknd|]. split.
+        - intros p d Hin. apply pds_In in Hin. destruct Hin as (it' & Hit' & Hpd').
+          destruct (Hkfrom it' Hit') as (i & it & Hi & Hit & Hpd). rewrite Hpd in Hpd'.
+          inversion Hpd'; subst p d. destruct (Hg i Hi) as (p0 & d0 & Hn0 & Hs0).
+          apply nth_error_pds in Hn0. destruct Hn0 as (it0 & Hit0 & Hpd0). rewrite Hit in Hit0.
+          inversion Hit0; subst it0. unfold pd in Hpd0. inversion Hpd0; subst p0 d0.
+          exists x. split; [exact Hs0|exact Estop].
+        - intros p d Hin. apply pds_In in Hin. destruct Hin as (it' & Hit' & Hpd').
+          destruct (Hkfrom it' Hit') as (i & it & Hi & Hit & Hpd). rewrite Hpd in Hpd'.
+          inversion Hpd'; subst p d.
+          apply (proj2 (proj2 (proj1 (Hnd cur st Hcur))) (it_p it) (it_d it)).
+          apply pds_In. exists it. split; [eapply nth_error_In; exact Hit|reflexivity]. }
       assert (Hkin' : forall i p d, In i idxs -> nth_error (pds (ms_items st)) i = Some (p, d) ->
                                     In (p, S d) (pds kits)).
       { intros i p d Hi Hp. apply nth_error_pds in Hp. destruct Hp as (it & Hit & Hpd).
@@ -811,9 +841,14 @@ Section Invariants.
     assert (Hnd1 : nodup_all all1).
     { intros k s Hk. unfold all1 in Hk. rewrite nth_error_set_items in Hk.
       destruct (Nat.eqb_spec k cur) as [->|Hne].
-      - rewrite Hcur in Hk. inversion Hk; subst s. cbn [ms_items].
-        destruct (Hnd cur st Hcur) as [Hn0 Hp0]. split; [apply Hndc; exact Hn0|].
-        intros p d Hin. apply Hp0. eapply grows_pred; eassumption.
+      - rewrite Hcur in Hk. inversion Hk; subst s. unfold state_wf. cbn [ms_items ms_acts].
+        destruct (Hnd cur st Hcur) as ((Hn0 & Hp0 & Hv0) & Hacts0). split; [|exact Hacts0].
+        split; [apply Hndc; exact Hn0|]. split.
+        + intros p d Hin. apply Hp0. eapply grows_pred; eassumption.
+        + intros p d Hin. apply pds_In in Hin. destruct Hin as (it & Hit & Hpd).
+          unfold pd in Hpd. inversion Hpd; subst p d.
+          apply (closure_valid ps e lr1 fs cfuel _ _ Hcl); [|exact Hit].
+          intros it0 Hit0. apply (Hv0 (it_p it0) (it_d it0)). apply pds_In. exists it0. auto.
       - apply (Hnd k s Hk). }
     destruct (groups_spec ps e its) as [Hkeys _].
     destruct (do_groups_spec cur (groups ps e its) all1 all2 st1 Hg Hcur1 Hnd1 Hkeys)
@@ -859,13 +894,15 @@ Section Invariants.
       apply nth_error_None in Hcur. lia.
   Qed.
 
-  Lemma sinv_init : sinv 0 [state0 ps].
+  Lemma sinv_init : ps <> [] -> sinv 0 [state0 ps].
   Proof.
-    constructor.
+    intros Hne. constructor.
     - exists (state0 ps). split; [reflexivity|]. cbn. left. reflexivity.
     - intros k st Hk. destruct k as [|k]; cbn in Hk; [|destruct k; discriminate].
-      inversion Hk; subst st. cbn. split; [constructor; [intros []|constructor]|].
-      intros p d [Hc|[]]. inversion Hc.
+      inversion Hk; subst st. split; [|constructor]. cbn.
+      split; [constructor; [intros []|constructor]|]. split.
+      + intros p d [Hc|[]]. inversion Hc.
+      + intros p d [Hc|[]]. inversion Hc; subst. destruct ps; [congruence|cbn; lia].
     - intros k st Hk. lia.
   Qed.
 End Invariants.
